@@ -149,7 +149,8 @@ Inductive kstmt :=
 | KStore (i : nat) (e : expr).              (* values[i] = e, parsed from the generated text *)
 
 (* A let of the generated code is matched with the model's definition of the same name; the
-   generated text may not read a name the definition does not mention.  (That the text computes
+   generated text may not read a name the definition does not mention ("time" is printed as the
+   symbol t: ode.py binds symbols["time"] = t).  (That the text computes
    the definition's value is the printer contract, checked numerically.) *)
 Definition fill_stmt (o : ode) (k : kstmt) : option stmt :=
   match k with
@@ -158,7 +159,8 @@ Definition fill_stmt (o : ode) (k : kstmt) : option stmt :=
   | KUnM x i => Some (SUnpackM x i)
   | KLet x reads =>
       match find_assign o x with
-      | Some a => if forallb (fun r => mem r (vars (a_expr a))) reads
+      | Some a => if forallb (fun r => mem r (vars (a_expr a))
+                                     || (String.eqb r "t" && mem "time" (vars (a_expr a)))) reads
                   then Some (SLet x (a_expr a)) else None
       | None => None
       end
